@@ -18,7 +18,7 @@ import z3
 from contracts.storemodel import TS
 from pyvc.models.arrays import SArr
 from pyvc.source import Unsupported
-from pyvc.values import Builtin, EnumMember, Model, Obj, PyExc, to_real, to_z3
+from pyvc.values import Builtin, EnumMember, Ext, Model, Obj, PyExc, to_real, to_z3
 from pyvc.verify import unit
 
 LEVEL = 'other'
@@ -323,6 +323,197 @@ def unset_optional(h):
         h.fail('missing-required-value-is-refused', 'accepted')
     except PyExc as e:
         h.ensure('missing-required-value-is-refused', h.exc_is(e, 'ValueError'))
+
+
+# -------------------------------------------------------------------------------------------------
+# what a trajectory keeps: values of the field's own type (so that what is added is what the file can hold)
+NPTYPES = {'float32': ('f', 4), 'float64': ('f', 8), 'int32': ('i', 4), 'int64': ('i', 8), 'uint8': ('u', 1)}
+KIND_RANK = {'u': 1, 'i': 2, 'f': 3}
+CONVERTED = z3.Function('value_converted_to_type', z3.IntSort(), z3.RealSort(), z3.RealSort())
+
+
+class NpDtype(Model):
+    def __init__(self, tname):
+        self.tname = tname
+
+    def py_getattr(self, I, name):
+        if name == 'kind':
+            return NPTYPES[self.tname][0]
+        if name == 'itemsize':
+            return NPTYPES[self.tname][1]
+        if name == 'name':
+            return self.tname
+        if name == 'shape':
+            return ()
+        raise Unsupported('dtype.' + name)
+
+    def py_eq(self, I, other):
+        return isinstance(other, NpDtype) and other.tname == self.tname
+
+
+def _tname(t):
+    n = getattr(t, 'name', None) or getattr(t, 'tname', None) or str(t)
+    n = n.rsplit('.', 1)[-1]
+    if n not in NPTYPES:
+        raise Unsupported(f'numpy type {n}')
+    return n
+
+
+class TypedValue(Model):
+    """Ghost numpy value: element type, payload (one symbolic real standing for the contents), array or scalar."""
+
+    def __init__(self, tname, payload, ndarray, npoints=None):
+        self.tname, self.payload, self.ndarray, self.npoints = tname, payload, ndarray, npoints
+        self.type_names = ('numpy.ndarray',) if ndarray else ()
+        self.py_type = Ext('numpy.ndarray' if ndarray else 'numpy.' + tname)
+
+    def py_len(self, I):
+        if self.npoints is None:
+            I.raise_('TypeError', 'len() of unsized object')
+        return self.npoints
+
+    def py_getattr(self, I, name):
+        if name == 'dtype':
+            return NpDtype(self.tname)
+        if name == 'size':
+            return self.npoints if self.npoints is not None else 1
+        if name == 'astype':
+            def astype(t, casting='unsafe', **kw):
+                tn = _tname(t)
+                code = list(NPTYPES).index(tn)
+                return TypedValue(tn, self.payload if tn == self.tname else CONVERTED(code, self.payload), True, self.npoints)
+            return Builtin('ndarray.astype', astype)
+        if name == 'item':
+            return Builtin('ndarray.item', lambda: TypedValue(self.tname, self.payload, False, None))
+        raise Unsupported('ndarray.' + name)
+
+
+def install_typed_numpy(h):
+    I = h.I
+
+    def can_cast(I_, frm, to, casting='safe'):
+        a, b = NPTYPES[_tname(frm)], NPTYPES[_tname(to)]
+        if casting != 'same_kind':
+            raise Unsupported('can_cast casting=' + str(casting))
+        # numpy: same_kind = safe casts plus casts within a kind (narrowing allowed); never to a lower kind
+        if a[0] == b[0]:
+            return True
+        return KIND_RANK[a[0]] < KIND_RANK[b[0]] and (b[0] == 'f' or a[1] < b[1])
+    I.models['numpy.can_cast'] = can_cast
+    I.models['numpy.dtype'] = lambda I_, t: NpDtype(_tname(t))
+    I.models['numpy.asarray'] = lambda I_, x, dtype=None, **kw: x if x.ndarray else TypedValue(x.tname, x.payload, True, None)
+
+
+def typed_field(h, I, dm, Dimensions, dims, tname):
+    FM = I.lookup_fq('AEIC.storage.field_sets:FieldMetadata')
+    ft = Ext('numpy.' + tname)
+    return I.call(FM, [], dict(dimensions=I.call(Dimensions, [dm[d] for d in dims], {}), field_type=ft))
+
+
+def has_field_type(v, tname, payload, ndarray):
+    code = list(NPTYPES).index(tname)
+    return (isinstance(v, TypedValue) and v.tname == tname and v.ndarray == ndarray,
+            lambda src: v.payload == (payload if src == tname else CONVERTED(code, payload)))
+
+
+@unit('C03', 'cast.kept-values-have-the-field-type', ['AEIC.storage.field_sets:FieldMetadata._cast'], replay='contracts.C03:replay_types')
+def cast_unit(h):
+    """FieldMetadata._cast: whatever same-kind type comes in, what comes out has the field's type (the value converted to it,
+    unchanged when it already had it), an array for an array and a scalar for a scalar; other kinds are refused."""
+    I, Species, TM, sp, tm, dm, Dimensions = enums(h)
+    install_typed_numpy(h)
+    names = list(NPTYPES)
+    src = names[h.choice(len(names))]
+    dst = names[h.choice(len(names))]
+    arr = h.choice(2) == 1
+    h.ctx.named['value_type'] = z3.StringVal(src)
+    h.ctx.named['field_type'] = z3.StringVal(dst)
+    h.ctx.named['value_is_array'] = z3.BoolVal(arr)
+    payload = h.real('contents')
+    fm = typed_field(h, I, dm, Dimensions, ['TRAJECTORY'] + (['POINT'] if arr else []), dst)
+    a, b = NPTYPES[src], NPTYPES[dst]
+    castable = a[0] == b[0] or (KIND_RANK[a[0]] < KIND_RANK[b[0]] and (b[0] == 'f' or a[1] < b[1]))
+    try:
+        r = h.method(fm, '_cast', TypedValue(src, payload, arr, h.int('npoints') if arr else None), 'x')
+    except PyExc as e:
+        h.ensure('only-values-of-another-kind-are-refused', (not castable) and h.exc_is(e, 'TypeError'))
+        return
+    h.ensure('only-values-of-another-kind-are-refused', castable)
+    ok, val = has_field_type(r, dst, payload, arr)
+    h.ensure('result-has-the-field-type', ok)
+    if ok:
+        h.ensure('result-is-the-value-converted-to-the-field-type', val(src))
+
+
+@unit('C03', 'convert-in.every-element-goes-through-the-cast', ['AEIC.storage.field_sets:FieldMetadata.convert_in'],
+      replay='contracts.C03:replay_types')
+def convert_in_unit(h):
+    """convert_in, all six shapes: every scalar / array inside the assigned value is replaced by _cast of it (contract of
+    _cast above), keys unchanged."""
+    I, Species, TM, sp, tm, dm, Dimensions = enums(h)
+    install_typed_numpy(h)
+    SV = I.lookup_fq('AEIC.types.species:SpeciesValues')
+    TMV = I.lookup_fq('AEIC.performance.types:ThrustModeValues')
+    shape = ['T', 'TP', 'TS', 'TSP', 'TM', 'TSM'][h.choice(6)]
+    h.ctx.named['shape'] = z3.StringVal(shape)
+    dims = {'T': ['TRAJECTORY'], 'TP': ['TRAJECTORY', 'POINT'], 'TS': ['TRAJECTORY', 'SPECIES'],
+            'TSP': ['TRAJECTORY', 'SPECIES', 'POINT'], 'TM': ['TRAJECTORY', 'THRUST_MODE'],
+            'TSM': ['TRAJECTORY', 'SPECIES', 'THRUST_MODE']}[shape]
+    fm = typed_field(h, I, dm, Dimensions, dims, 'float32')
+    n = h.int('npoints')
+    h.assume(n >= 1)
+    cast_calls = []
+
+    def cast_contract(I_, fi, a, k):
+        v = a[1]
+        cast_calls.append(v)
+        return TypedValue('float32', CONVERTED(0, v.payload), v.ndarray, v.npoints)
+    h.summary('AEIC.storage.field_sets:FieldMetadata._cast', cast_contract)
+    pointwise = 'P' in shape
+    leaf = lambda nm: TypedValue('float64', h.real(nm), pointwise, n if pointwise else None)   # noqa
+    species = [sp[x] for x in subsets_by_choice(h, ['CO2', 'NOx', 'SO4'])]
+    if shape in ('T', 'TP'):
+        val = leaf('v')
+        leaves = {(): val}
+    elif shape in ('TS', 'TSP'):
+        d = {s: leaf('v_' + s.name) for s in species}
+        val = I.call(SV, [dict(d)], {})
+        leaves = {(s,): x for s, x in d.items()}
+    elif shape == 'TM':
+        d = {m: leaf('v_' + m.name) for m in tm}
+        val = I.call(TMV, [dict(d)], {})
+        leaves = {(m,): x for m, x in d.items()}
+    else:
+        d = {s: {m: leaf(f'v_{s.name}_{m.name}') for m in tm} for s in species}
+        val = I.call(SV, [{s: I.call(TMV, [dict(x)], {}) for s, x in d.items()}], {})
+        leaves = {(s, m): x for s, dd in d.items() for m, x in dd.items()}
+    r = h.method(fm, 'convert_in', val, 'x', n)
+
+    def at(v, path):
+        for k in path:
+            v = I.getitem(v, k)
+        return v
+
+    def keys(v, depth):
+        if depth == 0:
+            return {()}
+        out = set()
+        for k in I.iterate(I.call(I.getattr(v, 'keys'), [], {})):
+            out |= {(k,) + rest for rest in keys(I.getitem(v, k), depth - 1)}
+        return out
+    depth = {'T': 0, 'TP': 0, 'TS': 1, 'TSP': 1, 'TM': 1, 'TSM': 2}[shape]
+    h.ensure('same-keys-none-lost-none-invented', keys(r, depth) == set(leaves))
+    good = []
+    for path, x in leaves.items():
+        try:
+            y = at(r, path)
+        except PyExc:
+            good.append(z3.BoolVal(False))
+            continue
+        good.append(z3.BoolVal(isinstance(y, TypedValue) and y.tname == 'float32' and y.ndarray == x.ndarray))
+        if isinstance(y, TypedValue):
+            good.append(y.payload == CONVERTED(0, x.payload))
+    h.ensure('every-element-is-the-cast-of-the-assigned-element', z3.And(*good) if good else z3.BoolVal(True))
 
 
 @unit('C03', 'load-trajectory.number-of-points', [TS + '._load_trajectory'], replay='contracts.C03:replay')
@@ -637,6 +828,87 @@ def replay_later(payload):
     finally:
         TrajectoryStore.active_in_thread = None
         shutil.rmtree(tmp, ignore_errors=True)
+
+
+def replay_types(payload):
+    """Native: values of another same-kind type assigned to fields of every shape are kept with the field's type, so that
+    what the trajectory holds is what the file returns (store round trip, exact equality, element types included)."""
+    import os
+    import shutil
+    import tempfile
+    import numpy as np
+    from AEIC.performance.types import ThrustMode, ThrustModeValues
+    from AEIC.storage import Dimension, Dimensions, FieldMetadata, FieldSet
+    from AEIC.trajectories import TrajectoryStore
+    from AEIC.types import Species, SpeciesValues
+    from contracts.C07 import _mk
+    D = Dimension
+    problems = []
+    types = dict(float32=np.float32, float64=np.float64, int32=np.int32, int64=np.int64, uint8=np.uint8)
+    for dn, dt in types.items():
+        for sn, st in types.items():
+            for arr in (False, True):
+                fm = FieldMetadata(dimensions=Dimensions(D.TRAJECTORY, D.POINT) if arr else Dimensions(D.TRAJECTORY), field_type=dt)
+                v = np.array([3, 7], dtype=st) if arr else st(3)
+                try:
+                    r = fm._cast(v, 'x')
+                except TypeError:
+                    if np.can_cast(st, dt, casting='same_kind'):
+                        problems.append(f'{sn} value refused by a {dn} field')
+                    continue
+                got = r.dtype if arr else np.asarray(r).dtype
+                want = np.dtype(dt) if arr else np.asarray(dt(3).item()).dtype
+                if got != want or isinstance(r, np.ndarray) != arr:
+                    problems.append(f'{sn} {"array" if arr else "scalar"} kept as {got} in a {dn} field')
+    name = 'c03_typed_fields'
+    if not FieldSet.known(name):
+        mk = lambda t, *d: FieldMetadata(dimensions=Dimensions(D.TRAJECTORY, *d), field_type=t, description='', units='')   # noqa
+        FieldSet(name, t_f4=mk(np.float32), tp_f4=mk(np.float32, D.POINT), ts_f4=mk(np.float32, D.SPECIES),
+                 tsp_f4=mk(np.float32, D.SPECIES, D.POINT), tm_f4=mk(np.float32, D.THRUST_MODE),
+                 tsm_f4=mk(np.float32, D.SPECIES, D.THRUST_MODE), t_i4=mk(np.int32), tp_i4=mk(np.int32, D.POINT))
+    tmp = tempfile.mkdtemp(prefix='c03t-', dir=os.environ.get('VERIF_SCRATCH'))
+    TrajectoryStore.active_in_thread = None
+    try:
+        t = _mk(0, n=5)
+        t.add_fields(FieldSet.from_registry(name))
+        x = np.linspace(0.1, 0.9, 5)
+        t.t_f4 = 0.1
+        t.tp_f4 = x
+        t.ts_f4 = SpeciesValues({Species.CO2: 0.1, Species.NOx: 0.3})
+        t.tsp_f4 = SpeciesValues({Species.CO2: x, Species.NOx: x / 3})
+        t.tm_f4 = ThrustModeValues({m: 0.1 * (i + 1) for i, m in enumerate(ThrustMode)})
+        t.tsm_f4 = SpeciesValues({Species.CO2: ThrustModeValues({m: 0.7 * (i + 1) for i, m in enumerate(ThrustMode)})})
+        t.t_i4 = np.int64(7)
+        t.tp_i4 = np.arange(5, dtype=np.int64)
+        path = os.path.join(tmp, 't.nc')
+        with TrajectoryStore.create(base_file=path) as ts:
+            ts.add(t)
+        TrajectoryStore.active_in_thread = None
+        with TrajectoryStore.open(base_file=path) as ts:
+            r = ts[0]
+
+            def leaves(v, pre=''):
+                if isinstance(v, (SpeciesValues, ThrustModeValues)):
+                    for k, e in v.items():
+                        yield from leaves(e, pre + '[' + k.name + ']')
+                else:
+                    yield pre, v
+            for f in ('t_f4', 'tp_f4', 'ts_f4', 'tsp_f4', 'tm_f4', 'tsm_f4', 't_i4', 'tp_i4'):
+                a, b = dict(leaves(getattr(t, f))), dict(leaves(getattr(r, f)))
+                if set(a) != set(b):
+                    problems.append(f'{f}: keys differ')
+                    continue
+                for k in a:
+                    if not np.array_equal(np.asarray(a[k]), np.asarray(b[k])):
+                        problems.append(f'{f}{k}: added {np.asarray(a[k]).tolist()!r} reads back {np.asarray(b[k]).tolist()!r}')
+                    elif isinstance(a[k], np.ndarray) and a[k].dtype != b[k].dtype:
+                        problems.append(f'{f}{k}: added as {a[k].dtype}, reads back as {b[k].dtype}')
+    except Exception as e:   # noqa
+        problems.append(f'{type(e).__name__}: {e}')
+    finally:
+        TrajectoryStore.active_in_thread = None
+        shutil.rmtree(tmp, ignore_errors=True)
+    return dict(reproduced=bool(problems), observed=problems[:6], required='values kept with the field type and read back equal')
 
 
 WITNESSES = {
